@@ -83,7 +83,7 @@ var Interferers = []Script{
 		`math.randomseed(9, 4)`,
 		`y = math.random()`,
 	}},
-	{Name: "rand_draws", Core: true, Stmts: []string{
+	{Name: "rand_draws", Stmts: []string{
 		`a = math.random()`,
 		`b = math.random(0)`,
 		`c = math.random(1, 10)`,
@@ -101,7 +101,7 @@ var Interferers = []Script{
 		`collectgarbage("stop")`,
 		`collectgarbage("restart")`,
 	}},
-	{Name: "gc_tuning", Core: true, Stmts: []string{
+	{Name: "gc_tuning", Stmts: []string{
 		`collectgarbage("setpause", 1)`,
 		`collectgarbage("setstepmul", 1)`,
 		`collectgarbage("step")`,
@@ -125,7 +125,7 @@ var Interferers = []Script{
 		`io.output():close()`,
 		`io.write("x")`,
 	}},
-	{Name: "io_input", Core: true, Stmts: []string{
+	{Name: "io_input", Stmts: []string{
 		`io.open("$D/in_$R.txt", "w"):write("line1\nline2\n"):close()`,
 		`io.input("$D/in_$R.txt")`,
 		`x = io.read("l")`,
@@ -201,7 +201,7 @@ var Interferers = []Script{
 		`package.loaded.mod = 42`,
 		`package.loaded = nil`,
 	}},
-	{Name: "pkg_preload", Core: true, Stmts: []string{
+	{Name: "pkg_preload", Stmts: []string{
 		`package.preload.mod = function() return {v = 1} end`,
 		`m = require("mod")`,
 		`package.preload.string = function() return "hijack" end`,
@@ -233,7 +233,7 @@ var Interferers = []Script{
 		`runtime.callcontext({kill = {memory = 1000000}}, function() local function f() return 1 + f() end return f() end)`,
 		`runtime.callcontext({kill = {cpu = 50000, memory = 1000000}}, function() local s = "x" while true do s = s .. s end end)`,
 	}},
-	{Name: "die_error", Core: true, Stmts: []string{
+	{Name: "die_error", Stmts: []string{
 		`error("boom")`,
 		`error({code = 2})`,
 		`local t = nil; t.x = 1`,
@@ -285,7 +285,7 @@ var Interferers = []Script{
 		`_ENV = setmetatable({}, {__index = function() return nil end})`,
 		`setmetatable(_G, {__metatable = "locked"})`,
 	}},
-	{Name: "G_wipe", Core: true, Stmts: []string{
+	{Name: "G_wipe", Stmts: []string{
 		`for k in pairs(_G) do if k ~= "_G" then _G[k] = nil end end`,
 		`x = 1`,
 		`_G._G = nil`,
